@@ -52,9 +52,11 @@ pub fn proj_json(ont: &Ontology) -> Result<Value, String> {
 }
 
 /// one random run; returns its events
-pub fn one_run(rng: &mut Rng) -> Vec<Value> {
+pub fn one_run(rng: &mut Rng, large: bool) -> Vec<Value> {
     let mut ev: Vec<Value> = vec![];
-    let n = rng.range(6, 16) as usize;
+    // a large run has deep chains: more than 30 ancestors / more than 10 parents per term cross the
+    // inline capacity of the crate's small-vector backed id groups
+    let n = if large { rng.range(45, 70) as usize } else { rng.range(6, 16) as usize };
     let mut ids: BTreeSet<u32> = BTreeSet::new();
     if rng.chance(1, 2) {
         ids.insert(1);
@@ -79,6 +81,15 @@ pub fn one_run(rng: &mut Rng) -> Vec<Value> {
         let mut ps = BTreeSet::new();
         for _ in 0..k {
             ps.insert(topo[rng.below(i as u64) as usize]);
+        }
+        if large {
+            // chain backbone + an occasional term with many direct parents
+            ps.insert(topo[i - 1]);
+            if i > 14 && rng.chance(1, 12) {
+                for j in 0..12 {
+                    ps.insert(topo[i - 1 - j]);
+                }
+            }
         }
         for p in ps {
             edges.push((p, topo[i]));
@@ -197,7 +208,7 @@ pub fn run(args: &Args) {
                 continue;
             }
         }
-        all.push((r, one_run(&mut rng)));
+        all.push((r, one_run(&mut rng, args.num("large-every", 0) > 0 && r % args.num("large-every", 1) == 0)));
     }
     // header: the id universes of the whole trace (constants of the trace specification)
     let mut ids: BTreeSet<u32> = BTreeSet::new();
